@@ -96,7 +96,8 @@ def coq_build():
             rc, out = sh(["coq_makefile", "-f", "_CoqProject", "-o", "Makefile"], cwd=COQ)
             if rc != 0:
                 return False, out, ["_CoqProject"]
-        rc, out = sh(["timeout", "1500", "make", "-k", "-j%d" % NPROC], cwd=COQ)
+        # each coqc is capped at 24 GB of address space: a runaway tactic must not take the machine down
+        rc, out = sh(["bash", "-c", "ulimit -v 24000000; exec timeout 1500 make -k -j%d" % NPROC], cwd=COQ)
         failed = []
         if rc != 0:
             # a file is "failed" when its .vo is missing or not up to date with respect to ALL its dependencies
